@@ -123,6 +123,9 @@ func (c *Ctx) modRef(fns map[*ssa.Function]bool) map[*ssa.Global]*globalUse {
 				if onlyWriteBase(x, 0) {
 					return
 				}
+				if counterIncrement(x, g) {
+					return // `g++` / `g += k`: the read is part of the write; nothing else sees it
+				}
 				get(g).reads = append(get(g).reads, i)
 			case ssa.CallInstruction:
 				cc := x.Common()
@@ -550,6 +553,31 @@ func (c *Ctx) errNonNilOf(cond ssa.Value, pol bool, name string) bool {
 	return isErrorType(ex.Type())
 }
 
+// errValNonNilOf: cond is a nil test that (with polarity pol) establishes non-nil, and the
+// value the path delivered to the tested phi is the error result of the named function.
+func (c *Ctx) errValNonNilOf(cond, val ssa.Value, pol bool, name string) bool {
+	if val == nil {
+		return false
+	}
+	b, ok := cond.(*ssa.BinOp)
+	if !ok {
+		return false
+	}
+	_, neq, ok := nilCompare(b)
+	if !ok || neq != pol {
+		return false
+	}
+	ex, ok := resolveLocal(val).(*ssa.Extract)
+	if !ok {
+		return false
+	}
+	call, ok := ex.Tuple.(*ssa.Call)
+	if !ok || calleeKey(&call.Call) != c.pkgFn(name) {
+		return false
+	}
+	return isErrorType(ex.Type())
+}
+
 func c06LoopShape(c *Ctx, r *Report, an *Anchors, p *Prov) {
 	sf := an.StreamFn
 	loop := scanLoopOf(sf)
@@ -677,6 +705,7 @@ func c06LoopShape(c *Ctx, r *Report, an *Anchors, p *Prov) {
 	type edgeFact struct {
 		cond ssa.Value
 		pol  bool
+		val  ssa.Value // for a nil test of a phi of the branching block: the value the path delivered
 	}
 	var entry []*ssa.BasicBlock
 	for _, s := range loop.Header.Succs {
@@ -731,9 +760,9 @@ func c06LoopShape(c *Ctx, r *Report, an *Anchors, p *Prov) {
 			just := ""
 			hasLineEmpty := false
 			for _, f := range facts {
-				if c.errNonNilOf(f.cond, f.pol, "RedactMongoLog") {
+				if c.errNonNilOf(f.cond, f.pol, "RedactMongoLog") || c.errValNonNilOf(f.cond, f.val, f.pol, "RedactMongoLog") {
 					just = "redactor-error"
-				} else if c.errNonNilOf(f.cond, f.pol, "MarshalOrdered") {
+				} else if c.errNonNilOf(f.cond, f.pol, "MarshalOrdered") || c.errValNonNilOf(f.cond, f.val, f.pol, "MarshalOrdered") {
 					just = "serialiser-error"
 				}
 				if bo, ok := f.cond.(*ssa.BinOp); ok && (bo.Op == token.EQL || bo.Op == token.NEQ) {
@@ -781,8 +810,20 @@ func c06LoopShape(c *Ctx, r *Report, an *Anchors, p *Prov) {
 					walk(only, b, facts, onPath)
 					return
 				}
-				walk(b.Succs[0], b, append(append([]edgeFact{}, facts...), edgeFact{ifi.Cond, true}), onPath)
-				walk(b.Succs[1], b, append(append([]edgeFact{}, facts...), edgeFact{ifi.Cond, false}), onPath)
+				// a nil test of a phi of this block (the error an inlined helper hands back): on
+				// this path the phi is the value of the edge the path came in by
+				var delivered ssa.Value
+				if x, _, isNil := nilCompare(ifi.Cond); isNil && pred != nil {
+					if ph, isPhi := resolveLocal(x).(*ssa.Phi); isPhi && ph.Block() == b {
+						for pi, pb := range b.Preds {
+							if pb == pred && pi < len(ph.Edges) {
+								delivered = ph.Edges[pi]
+							}
+						}
+					}
+				}
+				walk(b.Succs[0], b, append(append([]edgeFact{}, facts...), edgeFact{ifi.Cond, true, delivered}), onPath)
+				walk(b.Succs[1], b, append(append([]edgeFact{}, facts...), edgeFact{ifi.Cond, false, delivered}), onPath)
 				return
 			}
 		}
@@ -1721,4 +1762,46 @@ func aliasesOf(v ssa.Value) []ssa.Value {
 		}
 	}
 	return out
+}
+
+
+// counterIncrement: the load ld of global g is used only to compute g's next value by adding
+// a constant (`g++`, `g += 2`): a counter whose value nothing on this path looks at.
+func counterIncrement(ld *ssa.UnOp, g *ssa.Global) bool {
+	if ld.X != ssa.Value(g) {
+		return false
+	}
+	var bo *ssa.BinOp
+	for _, u := range referrers(ld) {
+		switch x := u.(type) {
+		case *ssa.DebugRef:
+		case *ssa.BinOp:
+			if bo != nil || (x.Op != token.ADD && x.Op != token.SUB) {
+				return false
+			}
+			if _, isC := x.Y.(*ssa.Const); !isC || x.X != ssa.Value(ld) {
+				return false
+			}
+			bo = x
+		default:
+			return false
+		}
+	}
+	if bo == nil {
+		return false
+	}
+	n := 0
+	for _, u := range referrers(bo) {
+		switch x := u.(type) {
+		case *ssa.DebugRef:
+		case *ssa.Store:
+			if x.Addr != ssa.Value(g) || x.Val != ssa.Value(bo) {
+				return false
+			}
+			n++
+		default:
+			return false
+		}
+	}
+	return n == 1
 }
